@@ -275,6 +275,48 @@ func runC03(c *Ctx) {
 			}
 		}
 	}
+	// order of the checks: a non-Success status is reported as such exactly when what is checked
+	// before it (Destination, request id, freshness, issuer) passes - whatever is wrong further on
+	// (an invalid Response signature, an invalid assertion)
+	for _, bad := range []string{"", "destination", "request-id", "stale", "issuer", "response-signature-invalid", "response-signed-by-attacker", "assertion-invalid", "no-assertion"} {
+		for _, st := range []string{"urn:oasis:names:tc:SAML:2.0:status:Requester", "urn:oasis:names:tc:SAML:2.0:status:AuthnFailed", ""} {
+			for _, signed := range []bool{true, false} {
+				d := fresh(cfg, signed)
+				d.rs.Status = sp(st)
+				ids := []string{"req-1"}
+				post := func(r *Node) {}
+				switch bad {
+				case "destination":
+					d.rs.Dest = sp("https://evil.example.net/acs")
+				case "request-id":
+					ids = []string{"req-2"}
+				case "stale":
+					d.rs.Issue = sp(fmtMS(now - 2*3600*1000*ms))
+				case "issuer":
+					d.rs.Issuer = sp("https://evil.example.net/idp")
+				case "response-signature-invalid":
+					post = func(r *Node) { r.SetAttr("Consent", "edited-after-signing") }
+				case "response-signed-by-attacker":
+					post = func(r *Node) {
+						if s := firstSig(r); s != nil {
+							r.Remove(s)
+						}
+						SignInto(r, 9)
+					}
+				case "assertion-invalid":
+					d.as.Issuer = sp("https://evil.example.net/idp")
+				}
+				doc := build(cfg, d)
+				if bad == "no-assertion" {
+					doc.Remove(doc.Child("saml", "Assertion"))
+				}
+				post(doc)
+				c.Count("class/check-order")
+				addRun(c, g, &Run{Cfg: cfg, IDs: ids, Now: now, Cur: d.cur, Doc: doc},
+					map[string]string{"class": "check-order", "also_wrong": bad, "status": st, "signed": fmt.Sprint(signed)}, false)
+			}
+		}
+	}
 	c03Artifact(c, g)
 	randomCombinations(c, g, 400, false)
 }
